@@ -23,6 +23,53 @@ from .core import norm
 from .model import last_attr
 
 
+class _LazyWhere:
+    """source text of a call site, rendered on demand"""
+
+    def __init__(self, node):
+        self.node = node
+
+    def __str__(self):
+        return norm(self.node)[:80] if self.node is not None else "?"
+
+    __repr__ = __str__
+
+    def __format__(self, spec):
+        return format(str(self), spec)
+
+
+class NullLog:
+    """Trusted stand-in for the `logging` module *and* for a logger object: nothing is enabled, every logging call is a no-op that
+    accepts abstract records as arguments.  Hand it in as `trusted_modules={"logging": NullLog()}`."""
+
+    DEBUG, INFO, WARNING, WARN, ERROR, CRITICAL, NOTSET = 10, 20, 30, 30, 40, 50, 0
+    _pyint_accepts_abstract = True
+
+    def getLogger(self, *a, **k):
+        return self
+
+    def getChild(self, *a, **k):
+        return self
+
+    def isEnabledFor(self, *a, **k):
+        return False
+
+    def getEffectiveLevel(self):
+        return 100
+
+    def __getattr__(self, name):
+        if name in ("debug", "info", "warning", "warn", "error", "exception", "log", "critical", "setLevel", "addHandler", "removeHandler"):
+            return _noop
+        raise AttributeError(name)
+
+
+def _noop(*a, **k):
+    return None
+
+
+_noop._pyint_accepts_abstract = True
+
+
 class Raised(Exception):
     def __init__(self, name, msg=""):
         super().__init__(f"{name}: {msg}")
@@ -202,6 +249,8 @@ class Interp:
         self._modconst: dict = {}
         self.overrides: dict = {}  # (module rel, name) -> value: rule-supplied bindings of module globals (e.g. ctx.options)
         self._gen_targets: list = []  # replay frames of generator calls: [k, yields seen]
+        self._functext: dict = {}  # id(call node) -> rendered callee text (externals lookup)
+        self._fnkind: dict = {}  # id(function node) -> 'plain' | 'gen' | 'coroutine' | 'asyncgen'
 
     # ------------------------------------------------------------------ entry
     def call(self, rel: str, qual: str, *args, **kwargs):
@@ -257,8 +306,9 @@ class Interp:
         import collections as _c
 
         container_method = isinstance(getattr(f, "__self__", None), (dict, list, set, frozenset, tuple, _c.deque)) or f in (list, tuple, set, frozenset, dict, len, bool, any, all, zip, enumerate, reversed, sorted, min, max)
+        accepts = getattr(f, "_pyint_accepts_abstract", False) or getattr(getattr(f, "__self__", None), "_pyint_accepts_abstract", False)
         for a in list(args) + list(kwargs.values()):
-            if isinstance(a, (Rec, Func, ClassRef)) and not container_method:
+            if isinstance(a, (Rec, Func, ClassRef)) and not container_method and not accepts:
                 raise AnalysisError(f"pyint: abstract value passed to a native callable at {where}")
         try:
             return f(*args, **kwargs)
@@ -665,6 +715,11 @@ class Interp:
         return iter(out)  # generator expression: materialised eagerly (pure subset), handed out as a one-shot iterator so next() / any() work
 
     def binop(self, op, l, r, node):
+        if isinstance(op, ast.BitOr) and all(isinstance(x, (ClassRef, type)) or (isinstance(x, tuple) and x and x[0] == "$union") for x in (l, r)):
+            flat = []
+            for x in (l, r):
+                flat.extend(x[1] if isinstance(x, tuple) else [x])
+            return ("$union", flat)  # X | Y of classes: accepted by isinstance()
         if isinstance(l, (Rec, Func, ClassRef)) or isinstance(r, (Rec, Func, ClassRef)):
             raise AnalysisError(f"pyint: arithmetic on an abstract value: {norm(node)[:80]}")
         try:
@@ -783,7 +838,7 @@ class Interp:
             return getattr(mod, "dotted", None) or mod.rel[:-3].replace("/", ".")
         if ident in SAFE_BUILTINS:
             return SAFE_BUILTINS[ident]
-        if ident in ("isinstance", "getattr", "hasattr", "callable", "type", "issubclass", "print", "super", "setattr", "next", "iter"):
+        if ident in ("isinstance", "getattr", "hasattr", "callable", "type", "issubclass", "print", "super", "setattr", "next", "iter", "filter", "map"):
             return ("$builtin", ident)
         b = getattr(builtins, ident, None)
         if isinstance(b, type) and issubclass(b, BaseException):
@@ -908,6 +963,9 @@ class Interp:
                     return True
             elif isinstance(c, tuple) and c and c[0] == "$exc":
                 continue
+            elif isinstance(c, tuple) and c and c[0] == "$union":
+                if self.isinstance_(v, list(c[1])):
+                    return True
             elif isinstance(c, (tuple, list)):
                 if self.isinstance_(v, list(c)):
                     return True
@@ -916,11 +974,14 @@ class Interp:
         return False
 
     def ev_call(self, e, env, mod, depth):
-        text = norm(e.func)
-        if text in self.externals:
-            args = self.elts(e.args, env, mod, depth)
-            kwargs = {k.arg: self.ev(k.value, env, mod, depth) for k in e.keywords if k.arg}
-            return self.externals[text](*args, **kwargs)
+        if self.externals:
+            text = self._functext.get(id(e))
+            if text is None:
+                text = self._functext[id(e)] = norm(e.func)
+            if text in self.externals:
+                args = self.elts(e.args, env, mod, depth)
+                kwargs = {k.arg: self.ev(k.value, env, mod, depth) for k in e.keywords if k.arg}
+                return self.externals[text](*args, **kwargs)
         f = self.ev(e.func, env, mod, depth)
         args = self.elts(e.args, env, mod, depth)
         kwargs = {}
@@ -986,6 +1047,15 @@ class Interp:
             if not isinstance(me, Rec) or me._impl is None or fnode is None:
                 raise AnalysisError("pyint: super() outside a method of a bound record")
             return ("$super", me, fnode)
+        if name in ("filter", "map"):
+            # eager (the interpreted subset is pure), handed out as one-shot iterators like the built-ins
+            fn, seqs = args[0], [list(self.iterate(a, e)) for a in args[1:]]
+            if name == "filter":
+                if len(seqs) != 1:
+                    raise Raised("TypeError", "filter expected 2 arguments")
+                keep = (lambda x: self.truthy(x)) if fn is None else (lambda x: self.truthy(self.apply(fn, [x], {}, depth, e)))
+                return iter([x for x in seqs[0] if keep(x)])
+            return iter([self.apply(fn, list(xs), {}, depth, e) for xs in zip(*seqs)])
         if name in ("next", "iter"):
             if name == "iter":
                 return iter(self.iterate(args[0], e))
@@ -1040,11 +1110,11 @@ class Interp:
 
     def apply(self, f, args, kwargs, depth, node=None):
         self.calls += 1
-        where = norm(node)[:80] if node is not None else "?"
         if isinstance(f, Func):
             if depth + 1 > self.max_depth:
-                raise AnalysisError(f"pyint: call depth {self.max_depth} exceeded at {where}")
+                raise AnalysisError(f"pyint: call depth {self.max_depth} exceeded at {norm(node)[:80] if node is not None else '?'}")
             return self.call_func(f, args, kwargs, depth + 1)
+        where = _LazyWhere(node)  # rendered only if a message needs it (ast.unparse per call was a hotspot)
         if isinstance(f, ClassRef):
             return self.instantiate(f, args, kwargs, depth, where)
         if isinstance(f, (Rec,)):
@@ -1095,15 +1165,23 @@ class Interp:
                 raise Raised("TypeError", f"missing argument {p}")
         if isinstance(node, ast.Lambda):
             return self.ev(node.body, env, f.mod, depth)
-        is_gen = False
-        for n in ast.walk(node):
-            if isinstance(n, ast.Await) and self._owner(n, node):
-                raise AnalysisError(f"pyint: {node.name} is a coroutine (not a pure decision function)")
-            if isinstance(n, (ast.Yield, ast.YieldFrom)) and self._owner(n, node):
-                is_gen = True
-        if is_gen:
-            if isinstance(node, ast.AsyncFunctionDef):
-                raise AnalysisError(f"pyint: {node.name} is an async generator (not modelled)")
+        kind = self._fnkind.get(id(node))
+        if kind is None:
+            kind = "plain"
+            for n in ast.walk(node):
+                if isinstance(n, ast.Await) and self._owner(n, node):
+                    kind = "coroutine"
+                    break
+                if isinstance(n, (ast.Yield, ast.YieldFrom)) and self._owner(n, node):
+                    kind = "gen"
+            if kind == "gen" and isinstance(node, ast.AsyncFunctionDef):
+                kind = "asyncgen"
+            self._fnkind[id(node)] = kind
+        if kind == "coroutine":
+            raise AnalysisError(f"pyint: {node.name} is a coroutine (not a pure decision function)")
+        if kind == "asyncgen":
+            raise AnalysisError(f"pyint: {node.name} is an async generator (not modelled)")
+        if kind == "gen":
             return Gen(self, f, node, env, depth)
         try:
             self.block(node.body, env, f.mod, depth)
